@@ -1,11 +1,11 @@
 (* Extract.v — extraction of the executable model and the observation functions to OCaml.
    Only the directives of ExtrOcamlBasic are used (bool, option, unit, list, prod, sumbool,
    comparison -> native OCaml types); N, Z, positive, nat stay extracted inductive datatypes. *)
-From hagall Require Import Preds2 Preds3.
+From hagall Require Import Preds2 Preds3 Purge.
 Require Extraction.
 Require ExtrOcamlBasic.
 Extraction Language OCaml.
 Extraction "model.ml" dec_op dec_msg dec_req dec_cfg dec_verdict enc_msg enc_req enc_verdict
   diff_trace pi_full P_none run pi_C14 P_C14
   pi_C02 P_C02 pi_C05 P_C05 pi_C06 P_C06 pi_C07 P_C07 pi_C10 P_C10 pi_C12 P_C12 pi_C13 P_C13 pi_C16 P_C16
-  lift diff_trace_t pi_C01 P_C01 pi_C03 P_C03 pi_C04 P_C04 pi_C11 P_C11 pi_C17 P_C17 pi_C18 P_C18 run_P_C17_pair no_skip skip_limit tpi_C01 tpi_C05 pi_none P_C04_full.
+  lift diff_trace_t pi_C01 P_C01 pi_C03 P_C03 pi_C04 P_C04 pi_C11 P_C11 pi_C17 P_C17 pi_C18 P_C18 run_P_C17_pair no_skip skip_limit tpi_C01 tpi_C05 pi_none P_C04_full run_P_C03_purge model_purge is_skip_code.
